@@ -696,6 +696,9 @@ class Interp:
             tb = b.value if isinstance(b, Const) else b.text_only()
             if ta is not None and tb is not None:
                 return ta == tb
+            if isinstance(ta, str) or isinstance(tb, str) or (ta is None and tb is None):
+                # text that contains translated parts against a text: not decided by the shape
+                return self.choose(('eq-code', self._nid(node)), [True, False])
         if isinstance(a, GroupStr) and isinstance(b, (Const, Code)) or isinstance(b, GroupStr) and isinstance(a, (Const, Code)):
             g, c = (a, b) if isinstance(a, GroupStr) else (b, a)
             text = c.value if isinstance(c, Const) else c.text_only()
